@@ -82,7 +82,7 @@ func (rc *RunCtx) AbsorbSim(s *sim.Sim, strategy string) {
 		rc.FullTrace = s.RenderTrace(1 << 30)
 	}
 	rc.Steps += s.Step
-	rc.SimTime += s.Now()
+	rc.SimTime = time.Duration(SatAdd(int64(rc.SimTime), int64(s.Now())))
 	rc.Strategy = strategy
 	if s.Preempts > 0 {
 		rc.NonTrivial = true
@@ -209,7 +209,7 @@ func NewAgg(property string) *Agg {
 func (a *Agg) Add(rc *RunCtx, maxSamples int) {
 	a.Runs++
 	a.Steps += int64(rc.Steps)
-	a.SimTimeNs += int64(rc.SimTime)
+	a.SimTimeNs = SatAdd(a.SimTimeNs, int64(rc.SimTime))
 	for k, v := range rc.Counters {
 		a.Counters[k] += v
 	}
@@ -298,4 +298,17 @@ func ReadReplay(path string) (*ReplayFile, error) {
 		return nil, err
 	}
 	return rf, nil
+}
+
+// SatAdd adds two non-negative durations in nanoseconds and saturates at the
+// largest value (programs that sleep for simulated hours in a loop cover
+// centuries of simulated time over a batch; a wrapped sum would be a lie).
+func SatAdd(a, b int64) int64 {
+	if b < 0 {
+		b = 0
+	}
+	if a > (1<<63-1)-b {
+		return 1<<63 - 1
+	}
+	return a + b
 }
